@@ -156,8 +156,11 @@ JobEndClauses(o, a, c, hh) ==
                     \/ \E q \in Children(o, p) : q.state = "OPEN" /\ HasRef(b, q.src) /\ HasRef(b, q.dst))
              THEN {"C19.decline.leftover"} ELSE {}
         ELSE {})
+  \* (pull requests this job merged: the evaluated one, or queued ones; a pull request that merely became MERGED
+  \* on the host because another one brought its commits in is not "merged by Bert-E")
   \cup (IF ~ faulted /\ \E p \in UserPrs(o) : HasPr(b, p.id) /\ PrById(b, p.id).state = "OPEN"
                                    /\ p.state = "MERGED" /\ WRefs(o, p) # {}
+                                   /\ (p \in P \/ WasQueued(b, p))
         THEN {"C19.merge.refs"} ELSE {})
   \* ---- C20
   \cup (IF kind \in AdminKinds /\ ~ faulted /\ Refused(o) /\ ~ (SameRefs(b, o) /\ SameTags(b, o))
